@@ -127,6 +127,14 @@ package state
 //@   ensures result != nil && result.Round == $blockRound
 //@   ensures forall i in 0..len(result.Txns) :: result.Txns[i] != nil
 
+// readers of chain configuration: no effect on the modelled state
+//@ iface 0chain.net/chaincore/chain/state.StateContextI.GetLastestFinalizedMagicBlock
+//@   params self
+//@   pure
+//@ iface 0chain.net/chaincore/chain/state.StateContextI.GetMagicBlock
+//@   params self round
+//@   pure
+
 //@ iface 0chain.net/chaincore/chain/state.StateContextI.EmitEvent
 //@   params self eventType eventTag index data appender
 //@   pure
